@@ -341,7 +341,17 @@ PKG_FILES = {
     "p1/tests/it.rs": "// p1 integration test\n#[test] fn t() {\n    assert_struct!(d, D { .. });\n}\n//\n",
     "p2/tests/it.rs": "// p2 integration test, different\n#[test] fn u() {\n    assert_struct!(e, #(1, 2));\n}\n//\n",
 }
-PKG_PAIRS = [("p1", "src/lib.rs"), ("p2", "src/lib.rs"), ("ws/member", "src/lib.rs"), ("p1", "tests/it.rs"), ("p2", "tests/it.rs")]
+# a directory reached through a symbolic link: `tests/suite/..` is NOT `tests` (suite -> ../../shared/inner, so suite/.. is shared);
+# the file named `tests/suite/../case.rs` is shared/case.rs, and a different file sits at the lexically collapsed place tests/case.rs
+PKG_FILES.update({
+    "sl/shared/case.rs": "// the SHARED helper, reached through a symlinked directory\nfn shared() {\n    assert_struct!(s, Shared { a: 1 });\n}\n// end shared\n",
+    "sl/shared/inner/keep.rs": "// keeps the directory\n",
+    "sl/pkg/tests/case.rs": "// the package-local file of the same name\nfn local() {\n    assert_struct!(l, Local { b: 2 });\n}\n// end local\n",
+})
+PKG_LINKS = {"sl/pkg/tests/suite": "../../shared/inner"}
+PKG_ALIASES = {"sl/pkg/tests/suite/../case.rs": "sl/shared/case.rs"}       # spelling -> the file it really names
+PKG_PAIRS = [("p1", "src/lib.rs"), ("p2", "src/lib.rs"), ("ws/member", "src/lib.rs"), ("p1", "tests/it.rs"), ("p2", "tests/it.rs"),
+             ("sl/pkg", "tests/suite/../case.rs"), ("sl/pkg", "tests/case.rs")]
 
 
 def crossdir_stream(res, tier, seed):
@@ -349,8 +359,9 @@ def crossdir_stream(res, tier, seed):
     file!() strings coincide."""
     d = os.path.join(vlib.WORK, "tmp", "c17")
     rng = random.Random(seed * 7 + 5)
-    setup = ["c17file\t%s\t%s" % (hx(n), hx(c)) for n, c in PKG_FILES.items()]
-    orders = [PKG_PAIRS, PKG_PAIRS[::-1], [PKG_PAIRS[1], PKG_PAIRS[0]], [PKG_PAIRS[0], PKG_PAIRS[1]], [PKG_PAIRS[4], PKG_PAIRS[3], PKG_PAIRS[2]]]
+    setup = ["c17file\t%s\t%s" % (hx(n), hx(c)) for n, c in PKG_FILES.items()] + ["c17link\t%s\t%s" % (hx(l), hx(t)) for l, t in PKG_LINKS.items()]
+    orders = [PKG_PAIRS, PKG_PAIRS[::-1], [PKG_PAIRS[1], PKG_PAIRS[0]], [PKG_PAIRS[0], PKG_PAIRS[1]], [PKG_PAIRS[4], PKG_PAIRS[3], PKG_PAIRS[2]],
+              [PKG_PAIRS[5], PKG_PAIRS[6]], [PKG_PAIRS[6], PKG_PAIRS[5]]]
     for _ in range(4 if tier == "quick" else 40):
         k = rng.randint(2, 5)
         orders.append(rng.sample(PKG_PAIRS, k))
@@ -380,9 +391,8 @@ def crossdir_stream(res, tier, seed):
                     break
             if why is None:
                 for i, (pd, f) in enumerate(o):
-                    own = PKG_FILES[pd + "/" + f].split("\n")[1 + i % 3 - 0] if False else None
                     text = alone[i]
-                    src_lines = PKG_FILES[pd + "/" + f].split("\n")
+                    src_lines = PKG_FILES[PKG_ALIASES.get(pd + "/" + f, pd + "/" + f)].split("\n")
                     if not any(l.strip() and l in text for l in src_lines):
                         why = "the report for %s/%s shows none of that file's lines" % (pd, f)
                         break
